@@ -151,9 +151,9 @@ class ClientEnd:
         peer = Peer(client_side=False)
         tr = MemTransport(proto, self.loop, on_write=peer.receive)
         peer.attach(tr)
+        peer.start()
         proto.connection_made(tr)
         if self.auto_settings:
-            peer.start()
             peer.flush()
         self.conns.append((proto, tr, peer))
         return proto
@@ -188,8 +188,8 @@ class ServerEnd:
         peer = Peer(client_side=True)
         tr = MemTransport(proto, self.loop, on_write=peer.receive)
         peer.attach(tr)
-        proto.connection_made(tr)
         peer.start()
+        proto.connection_made(tr)
         peer.flush()
         self.conns.append((proto, tr, peer))
         return proto, tr, peer
